@@ -325,7 +325,7 @@ def run_concurrent_case(prog, params):
     res.states = 1
     u = UNIVERSES[params['universe']]()
     cfg, shape, programs, mode = params['cfg'], params['shape'], expand(params['programs']), params['mode']
-    prop = 'C16' if mode == 'linearizable' else 'C17'
+    prop = params.get('prop') or ('C16' if mode == 'linearizable' else 'C17')
 
     def h(ex):
         findings = []
@@ -335,7 +335,8 @@ def run_concurrent_case(prog, params):
                 if op in ('open_write', 'open_append'):
                     nm = 'w_%s_%s' % (op, var)
                     if nm not in sr.syms:
-                        sr.syms[nm] = sym_content(ex, 1, nm)
+                        # two bytes: longer than some and as long as other existing contents (a torn read needs a longer rewrite)
+                        sr.syms[nm] = sym_content(ex, 2, nm)
         t0 = setup_fs(sr, u, cfg, shape, 'T_')
         results = [[None] * len(p) for p in programs]
         order = []
@@ -406,6 +407,10 @@ def run_concurrent_case(prog, params):
                 if o is not None and o.tag in ('panic', 'deadlock'):
                     findings.append(fnd(key_base + '|%s:%s' % (o.tag, o.where or '?'), 'thread %d call %d %ss: %s' % (i, j, o.tag, o.msg)))
                     return findings
+        if params.get('panic_only'):
+            ex.stats.asserts += 1       # this schedule ended without a panic or deadlock
+            ex.stats.discharged += 1
+            return findings
         got_snap, raw = snap_key(sr, u, 'T_')
         bad = wellformed_obs(u, raw)
         if mode == 'all_ok':
